@@ -1,7 +1,6 @@
 import Rare.Drv.Expr
 import Rare.Drv.C11F64
-import Rare.Model.C11Case
-import Rare.Model.C11Log
+import Rare.Model.C11Table
 /-!
 C11, round 4 ops (see `harness/corr/c11r4.go`):
 
@@ -15,8 +14,9 @@ namespace Rare.Drv.C11R4
 open Rare Rare.Expr Rare.Proto
 
 /-- The C11 registry: the standard table with the full-Unicode `upper` / `lower` and the modelled
-    `ln` / `log10` / `log2` / `pow` (`Rare/Model/C11Log.lean`) in front. -/
-def registry : Registry := mkRegistry (Rare.C11.Case.table ++ Rare.C11.Log.table ++ stdTable) Gen.stdFunctionNames
+    `ln` / `log10` / `log2` / `pow` (`Rare/Model/C11Log.lean`) in front (`Rare/Model/C11Table.lean`; the table
+    `arity_guards` of `Props/C11.lean` speaks about). -/
+def registry : Registry := mkRegistry Rare.C11.c11Table Gen.stdFunctionNames
 
 def val (b : Bytes) : String := s!"ok val={Hex.enc b}"
 
